@@ -3,7 +3,12 @@
    current_tag and current_text_parent = a token node {page, token}) with the texts "258", "20010203T040506", "AQI=",
    and for every language x 256 pages x attribute token 5..127 (attribute context, current_attr = {page, token}) with
    "2001-02-03T04:05:06Z"; an output that starts with OPAQUE and carries the typed octets is a typed binary form.
-   Output:  E <langid> content|attrdt <page> <token> <kind> ; final "DONE n". */
+   Further: the Nokia OTA ICON branch (attribute context with a NAME="ICON" sibling attribute on the current node, text "AQI=");
+   the SyncML MIME-type rewrite, both ways: WBXML side (content context, text application/vnd.syncml-devinf+xml, every
+   language x page x token; reported once per language as "contentany" when every (page, token) is rewritten) and XML side
+   (xml_encode_text with application/vnd.syncml-devinf+wbxml and ...dmtnds+wbxml: lines X); the table option BINARY on every
+   real tag row: WBXML side parse_text -> OPAQUE (lines B), XML side xml_encode_text -> base64 (lines Y).
+   Output:  E|X <langid> content|attrdt|attrval|contentany <page> <token> <kind> ; B|Y <langid> <page> <token> ; final "DONE n". */
 #include "vh.h"
 #include "wbxml_encoder.c"
 
@@ -59,6 +64,101 @@ int main(void) {
             e->current_attr = NULL;
             wbxml_buffer_destroy(e->output); e->output = NULL; e->lang = NULL;
             wbxml_encoder_destroy(e);
+        }
+        {   /* ---- Nokia OTA ICON: VALUE attribute of an element that also has NAME="ICON" */
+            WBXMLTreeNode node; WBXMLTagEntry ftag = { "x", 0, 7, 0 };
+            WBXMLAttribute *a = wbxml_attribute_create();
+            memset(&node, 0, sizeof node); node.type = WBXML_TREE_ELEMENT_NODE;
+            node.attrs = wbxml_list_create();
+            a->name = wbxml_attribute_name_create_literal((WB_UTINY *) "NAME");
+            a->value = wbxml_buffer_create_from_cstr("ICON");
+            wbxml_list_append(node.attrs, a);
+            for (page = 0; page < 256; page++) for (tok = 5; tok < 128; tok++) {
+                WBXMLAttrEntry fake = { "x", NULL, (WB_UTINY) page, (WB_UTINY) tok };
+                WBXMLEncoder *e = wbxml_encoder_create();
+                WB_UTINY buf[32]; WBXMLError r;
+                e->lang = l; e->output = wbxml_buffer_create("", 0, 64); e->output_type = WBXML_ENCODER_OUTPUT_WBXML;
+                e->use_strtbl = FALSE; e->current_attr = &fake; e->current_tag = &ftag; e->current_node = &node; e->attrCodePage = (WB_UTINY) page;
+                strcpy((char *) buf, "AQI=");
+                r = wbxml_encode_value_element_buffer(e, buf, WBXML_VALUE_ELEMENT_CTX_ATTR);
+                n++;
+                if (r == WBXML_OK && starts(e->output, o_int, 4) && wbxml_buffer_len(e->output) == 4)
+                    printf("E %d attrval %d %d base64\n", (int) l->langID, page, tok);
+                e->current_attr = NULL; e->current_tag = NULL; e->current_node = NULL;
+                wbxml_buffer_destroy(e->output); e->output = NULL; e->lang = NULL;
+                wbxml_encoder_destroy(e);
+            }
+            wbxml_list_destroy(node.attrs, wbxml_attribute_destroy_item);
+        }
+        {   /* ---- MIME type rewrite, WBXML side (content context) and XML side (xml_encode_text) */
+            static const char *xml_texts[2] = { "application/vnd.syncml-devinf+wbxml", "application/vnd.syncml.dmtnds+wbxml" };
+            static const char *xml_want[2] = { "application/vnd.syncml-devinf+xml", "application/vnd.syncml.dmtnds+xml" };
+            unsigned long hits = 0; static unsigned char hit[256][64];
+            memset(hit, 0, sizeof hit);
+            for (page = 0; page < 256; page++) for (tok = 0; tok < 64; tok++) {
+                WBXMLTagEntry fake = { "x", (WB_UTINY) page, (WB_UTINY) tok, 0 };
+                WBXMLTag tag; WBXMLTreeNode node; int k;
+                WBXMLEncoder *e = wbxml_encoder_create();
+                WB_UTINY buf[64]; WBXMLError r;
+                memset(&node, 0, sizeof node); tag.type = WBXML_VALUE_TOKEN; tag.u.token = &fake;
+                node.type = WBXML_TREE_ELEMENT_NODE; node.name = &tag;
+                e->lang = l; e->output = wbxml_buffer_create("", 0, 64); e->output_type = WBXML_ENCODER_OUTPUT_WBXML;
+                e->use_strtbl = FALSE; e->current_tag = &fake; e->current_text_parent = &node; e->tagCodePage = (WB_UTINY) page;
+                strcpy((char *) buf, "application/vnd.syncml-devinf+xml");
+                r = wbxml_encode_value_element_buffer(e, buf, WBXML_VALUE_ELEMENT_CTX_CONTENT);
+                n++;
+                if (r == WBXML_OK && wbxml_buffer_len(e->output) > 10 && strstr((const char *) wbxml_buffer_get_cstr(e->output) + 1, "devinf+wbxml") != NULL) { hit[page][tok] = 1; hits++; }
+                e->current_tag = NULL; e->current_text_parent = NULL;
+                wbxml_buffer_destroy(e->output); e->output = NULL; e->lang = NULL;
+                wbxml_encoder_destroy(e);
+                for (k = 0; k < 2; k++) {
+                    WBXMLTreeNode text; 
+                    e = wbxml_encoder_create();
+                    memset(&text, 0, sizeof text); text.type = WBXML_TREE_TEXT_NODE; text.content = wbxml_buffer_create_from_cstr(xml_texts[k]);
+                    e->lang = l; e->output = wbxml_buffer_create("", 0, 64); e->output_type = WBXML_ENCODER_OUTPUT_XML;
+                    e->xml_gen_type = WBXML_GEN_XML_COMPACT; e->in_content = TRUE; e->current_tag = &fake;
+                    r = xml_encode_text(e, &text);
+                    n++;
+                    if (r == WBXML_OK && strcmp((const char *) wbxml_buffer_get_cstr(e->output), xml_want[k]) == 0)
+                        printf("X %d content %d %d %s\n", (int) l->langID, page, tok, k == 0 ? "mime" : "mimedm");
+                    e->current_tag = NULL;
+                    wbxml_buffer_destroy(text.content);
+                    wbxml_buffer_destroy(e->output); e->output = NULL; e->lang = NULL;
+                    wbxml_encoder_destroy(e);
+                }
+            }
+            if (hits == 256UL * 64UL) printf("E %d contentany 0 0 mime\n", (int) l->langID);
+            else for (page = 0; page < 256; page++) for (tok = 0; tok < 64; tok++) if (hit[page][tok]) printf("E %d content %d %d mime\n", (int) l->langID, page, tok);
+        }
+        if (l->tagTable != NULL) {   /* ---- table option BINARY, on the real rows */
+            const WBXMLTagEntry *row;
+            static const WB_UTINY bin[2] = { 1, 2 };
+            for (row = l->tagTable; row->xmlName != NULL; row++) {
+                WBXMLTreeNode text; WBXMLEncoder *e; WBXMLError r;
+                memset(&text, 0, sizeof text); text.type = WBXML_TREE_TEXT_NODE;
+                /* WBXML side */
+                e = wbxml_encoder_create();
+                text.content = wbxml_buffer_create(bin, 2, 2);
+                e->lang = l; e->output = wbxml_buffer_create("", 0, 64); e->output_type = WBXML_ENCODER_OUTPUT_WBXML;
+                e->use_strtbl = FALSE; e->current_tag = row; e->tagCodePage = row->wbxmlCodePage;
+                r = parse_text(e, &text);
+                n++;
+                if (r == WBXML_OK && starts(e->output, o_int, 4) && wbxml_buffer_len(e->output) == 4)
+                    printf("B %d %d %d\n", (int) l->langID, row->wbxmlCodePage, row->wbxmlToken);
+                e->current_tag = NULL; wbxml_buffer_destroy(text.content);
+                wbxml_buffer_destroy(e->output); e->output = NULL; e->lang = NULL; wbxml_encoder_destroy(e);
+                /* XML side */
+                e = wbxml_encoder_create();
+                text.content = wbxml_buffer_create(bin, 2, 2);
+                e->lang = l; e->output = wbxml_buffer_create("", 0, 64); e->output_type = WBXML_ENCODER_OUTPUT_XML;
+                e->xml_gen_type = WBXML_GEN_XML_COMPACT; e->in_content = TRUE; e->current_tag = row;
+                r = xml_encode_text(e, &text);
+                n++;
+                if (r == WBXML_OK && strcmp((const char *) wbxml_buffer_get_cstr(e->output), "AQI=") == 0)
+                    printf("Y %d %d %d\n", (int) l->langID, row->wbxmlCodePage, row->wbxmlToken);
+                e->current_tag = NULL; wbxml_buffer_destroy(text.content);
+                wbxml_buffer_destroy(e->output); e->output = NULL; e->lang = NULL; wbxml_encoder_destroy(e);
+            }
         }
     }
     printf("DONE %lu\n", n);
